@@ -125,6 +125,10 @@ class C14(Prop):
         # terminal runs exactly between the waiter's flag check and its waker registration
         out.append(Case("convert", "threads", [("kind", ["statusrace"]), ("model", [MODEL])],
                         [["race", "c"], ["race", E(3)], ["race", "c"]], {"kind": "statusrace"}))
+        # the waiter already parked (flag checked, waker registered, asleep) when the producer terminates from
+        # another thread: completion, error, item + completion
+        out.append(Case("convert", "threads", [("kind", ["statuswait"]), ("model", [MODEL])],
+                        [["term", "c"], ["term", E(3)], ["term", N(1)], ["term", E(7)]], {"kind": "statuswait"}))
         scripts = []
         for k in range(kmax + 1):
             items = [N(i + 1) for i in range(k)]
@@ -189,7 +193,7 @@ class C14(Prop):
     # --------------------------------------------------------------- oracle
     def oracle(self, case, lines, model_lines=None):
         kind = case.field("kind")[0]
-        if kind == "statusrace":
+        if kind in ("statusrace", "statuswait"):
             for k in range(len(case.events)):
                 if lines.get(k) != "wait=returned":
                     return {"kind": "lost-wakeup", "event": k,
